@@ -562,9 +562,112 @@ def r16_9(ctx):
     return r
 
 
+
+# ---- R16.10: no silent way out of the member resolver ---------------------------------------------------------------------------
+REPORT_CALL = re.compile(r"(Handler::(span_err|struct_span_err|err|struct_err|span_err_with_code)|Diagnostic\w*::emit)$")
+GROW_METHODS = ("push", "extend", "extend_from_slice", "append", "insert")
+
+def _productive_leaf(ctx, n):
+    if n.get("k") not in ("Call", "MethodCall"):
+        return False
+    cal = n.get("callee") or ""
+    if REPORT_CALL.search(cal) or REPORT_CALL.search(n.get("callee_full") or ""):
+        return True
+    if (VISITOR_CRATE, cal) in ctx.facts.hir_by_path:
+        return True
+    if n.get("k") == "MethodCall" and n.get("method") in GROW_METHODS and "RefinedTsTypeElement" in (strip_transparent(n["recv"]).get("ty") or ""):
+        return True
+    return False
+
+def _has_prod(ctx, n):
+    return any(_productive_leaf(ctx, x) for x in walk(n))
+
+
+def _silent_paths(ctx, e):
+    """list of tags of paths through e that complete without a productive action ([] = every path is productive)"""
+    if e is None:
+        return ["<nothing>"]
+    if not _has_prod(ctx, e):
+        return ["<no action>"] if e.get("k") != "Ret" else ["return"]
+    k = e.get("k")
+    if k == "Block":
+        parts = list(e.get("stmts", [])) + ([e["expr"]] if e.get("expr") is not None else [])
+        tags = []
+        for p in parts:
+            if p.get("k") == "Let":
+                init = p.get("init")
+                if p.get("else") is not None and _silent_paths(ctx, p["else"]) and not (init is not None and _has_prod(ctx, init)):
+                    # (when the initialiser is itself a call of a local function, leaving through the else is that function's doing)
+                    tags.append(("exit", "let-else `%s = %s`" % (pat_str(p["pat"]), expr_str(init)[:120])))
+                continue
+            if not _has_prod(ctx, p):
+                if p.get("k") == "Ret" or (p.get("k") == "If" and any(x.get("k") == "Ret" for x in walk(p, enter_closures=False))):
+                    tags.append(("exit", "early `%s`" % expr_str(p)[:100]))
+                continue
+            s = _silent_paths(ctx, p)
+            if s == []:
+                return [t for kind, t in tags if kind == "exit"]
+            tags.extend(("through", t) for t in s)
+        return [t for kind, t in tags]
+    if k == "If":
+        c = e["cond"]
+        out = []
+        st = _silent_paths(ctx, e["then"])
+        out += ["%s" % t for t in st] if _has_prod(ctx, e["then"]) else ["then of `if %s`: no action" % expr_str(c)[:120]]
+        if e.get("else") is not None:
+            se = _silent_paths(ctx, e["else"])
+            out += se if _has_prod(ctx, e["else"]) else ["else of `if %s`: no action" % expr_str(c)[:120]]
+        else:
+            out.append("no else for `if %s`" % expr_str(c)[:120])
+        return out
+    if k == "Match":
+        out = []
+        for a in e["arms"]:
+            if _has_prod(ctx, a["body"]):
+                out += _silent_paths(ctx, a["body"])
+            else:
+                out.append("arm `%s`: no action" % pat_str(a["pat"])[:120])
+        return out
+    if k in ("Call", "MethodCall"):
+        return []
+    ch = [v for v in e.values() if isinstance(v, dict)]
+    out = []
+    for c in ch:
+        if _has_prod(ctx, c):
+            s = _silent_paths(ctx, c)
+            if s == []:
+                return []
+            out += s
+    return out
+
+
+ACCEPTED_SILENT = [
+    (re.compile(r"^no else for `if let Some\(.*\) = .*type_params"), "a utility type written without its type argument(s): TypeScript itself rejects `Partial` / `Pick<T>`"),
+]
+
+
+def r16_10(ctx):
+    r = Rule("R16.10", "the member resolver has no silent way out: every path through it resolves further, appends members, or reports an error",
+             "a type the resolver leaves through an early `return` contributes no props and no diagnostic: the component silently loses them")
+    tr = C.role_or_fail(ctx, r, "type_elements_resolver")
+    if not tr:
+        return r
+    r.saw(tr["path"])
+    tags = _silent_paths(ctx, tr["body"])
+    seen = {}
+    for t in tags:
+        c = seen.get(t, 0)
+        seen[t] = c + 1
+        key = "silent exit: %s" % t if c == 0 else "silent exit: %s #%d" % (t, c + 1)
+        why = next((w for rx, w in ACCEPTED_SILENT if rx.search(t)), None)
+        r.ob(key, why is not None, C.mloc(tr, tr), ("accepted: " + why) if why else "this path adds no member, resolves nothing further and reports nothing")
+    r.ob("paths through the member resolver examined", True, "-", "%d path(s) without an action, all of an accepted kind" % len(tags) if all(any(rx.search(t) for rx, _ in ACCEPTED_SILENT) for t in tags) else "%d path(s) without an action" % len(tags))
+    return r
+
+
 def rules(ctx):
     from . import c17
-    return [__import__('vjsx.rules.c10', fromlist=['x']).field_ratchet('resolved props must not depend on what was resolved before'), r16_1, r16_2, r16_3, r16_4, r16_5, r16_6, r16_7, r16_8, r16_9, c17.r17_4]
+    return [__import__('vjsx.rules.c10', fromlist=['x']).field_ratchet('resolved props must not depend on what was resolved before'), r16_1, r16_2, r16_3, r16_4, r16_5, r16_6, r16_7, r16_8, r16_9, r16_10, c17.r17_4]
 
 
 EXPLANATION = (
@@ -576,6 +679,7 @@ EXPLANATION = (
     "span_err (reviewed: utility types without type arguments). R16.4: the registries are filled by a read-only pre-pass that dominates the traversal and "
     "are handed to the visitor before it. R16.5: requiredness table of the props builder. R16.6: every declaration hook registers on every "
     "path. R16.7: identifier keys and quoted keys select alike. R16.8: the member accumulator is append-only."
+    ' R16.10: the member resolver has no silent way out — every path through it calls a local resolver, appends members or reports an error; the only accepted paths without an action are utility types written without their type arguments.'
 )
 ASSUMPTIONS = ["set equality of props for every type encoding is not computed; only agreement of sibling implementations and the tables are decided",
                "TypeScript rejects built-in utility types without type arguments"]
